@@ -697,6 +697,8 @@ any receiver slice value with nil.
 func (r Stack) Replace(x any, idx int) (ok bool) {
 	if r.IsInit() && x != nil {
 		if !r.getState(ronly) {
+			r.stack.lock()
+			defer r.stack.unlock()
 			ok = r.stack.replace(x, idx)
 		}
 	}
